@@ -25,7 +25,8 @@ RULE = ("cases = generated dyadic specifications forced to reuse one parameter n
         "constraint, transition) with pairwise different values, stochastic states with shuffled dependency lists incl. _period; "
         "distinct = structural signature; evaluations = template entries compared + value entries compared + agent-periods checked")
 ASSUMPTIONS = ["exact comparison on dyadic inputs"]
-FORCES = [["collide"], ["collide", "stoch"], ["collide", "aux"], ["collide", "constraint"], ["collide", "mixed"], ["collide", "stoch", "aux"], ["stoch"], None]
+FORCES = [["collide"], ["collide", "stoch"], ["collide", "aux"], ["collide", "constraint"], ["collide", "mixed"], ["collide", "stoch", "aux"], ["stoch"], None,
+          ["collide", "twin"], ["twin", "aux"]]
 
 
 def cases(seed, tier):
